@@ -169,13 +169,19 @@ def run_case(rng, tier, case):
             # already-gridded prices pass through unchanged
             if tg.T > 0:
                 arr = np.round(rng.normal(10, 5, tg.T), 4)
-                kind = gen.pick(rng, ['dict_array', 'dict_list', 'df_index', 'df_range'])
+                kind = gen.pick(rng, ['dict_array', 'dict_list', 'df_index', 'df_range', 'df_intindex', 'df_gridI', 'dict_series'])
                 if kind == 'dict_array':
                     pr = {'a': arr.copy(), 'b': arr[::-1].copy()}
                 elif kind == 'dict_list':
                     pr = {'a': list(arr), 'b': list(arr[::-1])}
                 elif kind == 'df_index':
                     pr = pd.DataFrame({'a': arr, 'b': arr[::-1]}, index=tg.timepoints)
+                elif kind == 'df_intindex':
+                    pr = pd.DataFrame({'a': arr, 'b': arr[::-1]}, index=np.arange(tg.T))            # integer labels, not a RangeIndex
+                elif kind == 'df_gridI':
+                    pr = pd.DataFrame({'a': arr, 'b': arr[::-1]}, index=np.asarray(tg.I))
+                elif kind == 'dict_series':
+                    pr = {'a': pd.Series(arr, index=np.arange(tg.T)), 'b': pd.Series(arr[::-1], index=np.arange(tg.T))}
                 else:
                     pr = pd.DataFrame({'a': arr, 'b': arr[::-1]})
                 out = tg.prices_to_grid(pr)
